@@ -489,13 +489,22 @@ impl Parser<'_, '_> {
         }
 
         if self.peek_is(Token::CurlyLeft) {
+            // We only look at the third token if the second is an
+            // identifier. Otherwise we might lex past a token that switches
+            // the lexer to another mode, such as the start of an f-string:
+            // the text of the f-string must not be lexed as normal tokens.
+            let starts_with_ident = matches!(
+                self.peek_many::<2>(),
+                Some([Token::CurlyLeft, Token::Ident(_)])
+            );
             let is_anonymous_record = matches!(
                 self.peek_many::<2>(),
                 Some([Token::CurlyLeft, Token::CurlyRight])
-            ) || matches!(
-                self.peek_many::<3>(),
-                Some([Token::CurlyLeft, Token::Ident(_), Token::Colon])
-            );
+            ) || (starts_with_ident
+                && matches!(
+                    self.peek_many::<3>(),
+                    Some([Token::CurlyLeft, Token::Ident(_), Token::Colon])
+                ));
             if is_anonymous_record {
                 let key_values = self.record()?;
                 let span = self.spans.get(&key_values);
